@@ -441,6 +441,12 @@ def proof_stage(report, prop, thorough=False):
     """Build and audit the Lean obligations of `prop`; fills the proof keys of the coverage.
     Returns True when every obligation is discharged with allowed axioms only."""
     targets = ["Just.Props." + prop, "driver"]
+    # the tables the models read (functions, constants, justfile names, attributes, settings, signals) are regenerated
+    # from /repo/src before every build
+    from . import extract as _extract
+    with flock("lake"):
+        _changed, _notes = _extract.regenerate()
+    report.coverage["tables_regenerated_from_source"] = {"changed": bool(_changed), "notes": _notes}
     ok, out = lake_build(targets)
     checker = "cd lean && lake build Just.Props.%s && lake env lean Just/Audit/%s.lean" % (prop, prop)
     if not ok:
